@@ -12,6 +12,7 @@ if [ "$BASE" = "/tmp/seed3" ]; then if [ "$V" = "A" ]; then OUTV=E; else OUTV=F;
 if [ "$BASE" = "/tmp/seed4" ]; then if [ "$V" = "A" ]; then OUTV=G; else OUTV=H; fi; fi
 if [ "$BASE" = "/tmp/seed5" ]; then if [ "$V" = "A" ]; then OUTV=I; else OUTV=J; fi; fi
 if [ "$BASE" = "/tmp/seed6" ]; then if [ "$V" = "A" ]; then OUTV=K; else OUTV=L; fi; fi
+if [ "$BASE" = "/tmp/seed7" ]; then if [ "$V" = "A" ]; then OUTV=M; else OUTV=N; fi; fi
 WT=/tmp/sv-$P-$V
 rm -rf $WT; git -C /repo worktree add -q $WT HEAD || exit 2
 trap 'git -C /repo worktree remove --force '$WT' >/dev/null 2>&1' EXIT
